@@ -38,7 +38,7 @@ func init() {
 		Rule: "case = sketch reached by a seeded history incl. cleared-then-refilled stores, negatives with every store kind and arbitrary non-negative float64 weights: ToProto -> proto.Marshal -> Unmarshal -> FromProtoWithStoreProvider(any kind) must give an Equals mapping and bitwise equal zero weight and bin weights (count within 1e-12); EncodeProto bytes must unmarshal to a message proto.Equal to ToProto(); " +
 			"sources are also reweighted and may hold bins whose weight underflowed to zero (which carry nothing to rebuild); hand-built messages mixing binCounts and contiguousBinCounts (dyadic weights where they overlap, indexes also at both ends of the int32 range) must add up, and the rebuilt sketch written again by both writers must describe the same bins; half of the sources are converted again later - after the earlier message was scribbled on and a stream whose mapping is Equals but not bit-identical was decoded into them - and both writers must then describe the mapping the sketch holds. Non-trivial = both stores non-empty and >=1 non-integer weight; distinct = hash of the history.",
 		Cases:     core.Scale(60000, 1500000),
-		Mandatory: []string{"oracle.proto_roundtrips", "oracle.later_message_checks", "oracle.message_read_twice", "oracle.message_after_an_edited_one", "later_message.mapping_replaced_by_equal_one", "oracle.stream_equals_message", "oracle.mixed_message_checks", "weights.arbitrary", "source.cleared_then_refilled", "proto.target.dense", "proto.target.sparse", "proto.target.paginated", "proto.target.collapsing_lowest", "proto.target.collapsing_highest", "proto.via_FromProto", "proto.via_paginated_method", "source.underflowed_bins", "source.reweighted", "mixed.extreme_indexes", "oracle.mixed_second_leg", "source.unread_before_writing", "source.wide_span", "oracle.message_is_a_snapshot"},
+		Mandatory: []string{"oracle.proto_roundtrips", "oracle.later_message_checks", "oracle.message_read_twice", "oracle.message_after_an_edited_one", "oracle.mixed_extreme_index_checks", "later_message.mapping_replaced_by_equal_one", "oracle.stream_equals_message", "oracle.mixed_message_checks", "weights.arbitrary", "source.cleared_then_refilled", "proto.target.dense", "proto.target.sparse", "proto.target.paginated", "proto.target.collapsing_lowest", "proto.target.collapsing_highest", "proto.via_FromProto", "proto.via_paginated_method", "source.underflowed_bins", "source.reweighted", "mixed.extreme_indexes", "oracle.mixed_second_leg", "source.unread_before_writing", "source.wide_span", "oracle.message_is_a_snapshot"},
 		Run:       runC09,
 	})
 }
@@ -903,11 +903,17 @@ func runC09Mixed(c *core.Ctx) {
 					break
 				}
 				w := math.Ldexp(float64(r.Range(0, 64)), -r.Range(0, 3))
+				if (i < 2 || r.P(0.1)) && r.P(0.4) {
+					w = 0 // zero padding, in particular at the start of the run
+				}
 				st.ContiguousBinCounts = append(st.ContiguousBinCounts, w)
 				if w != 0 {
 					want[int(st.ContiguousBinIndexOffset)+i] += w
 				}
 			}
+		}
+		if r.P(0.4) && len(st.ContiguousBinCounts) > 0 && int(st.ContiguousBinIndexOffset)+len(st.ContiguousBinCounts)+3 < math.MaxInt32 {
+			st.ContiguousBinCounts = append(st.ContiguousBinCounts, make([]float64, r.Range(1, 3))...) // trailing zeros
 		}
 		return st, want
 	}
@@ -986,6 +992,25 @@ func runC09Mixed(c *core.Ctx) {
 				if want[b.K] != b.W {
 					c.Failf("mixed.weight", "%s bin %d: rebuilt %v, sparse+contiguous counts add up to %v (into %s)", side, b.K, b.W, want[b.K], target)
 					return
+				}
+			}
+			// the extreme indexes are those of the bins that hold weight: a contiguous run may legally begin or
+			// end with zeros (and a sparse entry may be zero), which hold nothing
+			if len(want) > 0 {
+				lo, hi := math.MaxInt64, math.MinInt64
+				for k := range want {
+					if k < lo {
+						lo = k
+					}
+					if k > hi {
+						hi = k
+					}
+				}
+				gl, e1 := st.MinIndex()
+				gh, e2 := st.MaxIndex()
+				c.Count("oracle.mixed_extreme_index_checks", 1)
+				if e1 != nil || e2 != nil || gl != lo || gh != hi {
+					c.Failf("mixed.extreme_indexes", "%s store rebuilt into %s: MinIndex/MaxIndex = %d(%v)/%d(%v), the message's non-empty bins span [%d,%d]", side, target, gl, e1, gh, e2, lo, hi)
 				}
 			}
 		}
